@@ -11,7 +11,7 @@ import os, sys, json, shutil, subprocess, time, re
 
 VERIF = os.path.dirname(os.path.dirname(os.path.abspath(__file__)))
 SEEDED = os.path.join(VERIF, "seeded")
-SCRATCH = "/var/tmp/ural-seed"
+SCRATCH = os.environ.get("SEED_SCRATCH", "/var/tmp/ural-seed")
 
 
 def sh(cmd, **kw):
@@ -25,6 +25,10 @@ def make_scratch(patch):
     if r.returncode:
         raise SystemExit("worktree: " + r.stderr)
     r = sh(["git", "-C", SCRATCH, "apply", patch])
+    if r.returncode != 0:
+        # later fixes moved the context: three-way merge on the recorded blobs
+        r = sh(["git", "-C", SCRATCH, "apply", "-3", patch])
+        sh(["git", "-C", SCRATCH, "reset", "-q"])
     return r.returncode == 0, r.stderr.strip()
 
 
@@ -57,7 +61,7 @@ def one(sid, thorough):
         row["demo_mutant"] = sh(["/venv/bin/python", demo, SCRATCH]).returncode
         row["demo_repo"] = sh(["/venv/bin/python", demo, "/repo"]).returncode
         rc, viol, dt, out = run_check(prop, "quick")
-        rc2, viol2, _, _ = run_check(prop, "quick") if rc == 1 else (rc, viol, 0, "")
+        rc2, viol2, _, _ = run_check(prop, "quick") if (rc == 1 and not ONCE) else (rc, viol, 0, "")
         row["quick"] = "exit %d, %d VIOLATION lines, %.0fs%s" % (rc, len(viol), dt, "" if viol == viol2 and rc == rc2 else " (NOT REPRODUCIBLE)")
         clauses = sorted(set(re.findall(r"^  \[([^\]]+)\]", out, re.M)))
         row["clauses"] = ", ".join(clauses[:6])
@@ -85,10 +89,16 @@ def intake(src, sid, prop):
     print("intake", sid)
 
 
+ONCE = False
+
+
 def main():
+    global ONCE
     args = sys.argv[1:]
     thorough = "--thorough" in args
-    args = [a for a in args if a != "--thorough"]
+    ONCE = "--once" in args
+    only_rows = "--rows-only" in args
+    args = [a for a in args if a not in ("--thorough", "--once", "--rows-only")]
     if args and args[0] == "--intake":
         intake(args[1], args[2], args[3])
         return 0
@@ -98,6 +108,8 @@ def main():
         r = one(sid, thorough)
         rows.append(r)
         print(json.dumps(r))
+    if only_rows:
+        return 0
     # merge with previous results
     resf = os.path.join(SEEDED, "results.json")
     prev = json.load(open(resf)) if os.path.exists(resf) else {}
